@@ -45,4 +45,21 @@ def expectedTuple (snaps : List Raw) (k : Key) : Option (List Nat) :=
 def expected (h : List Op) (n : Name) (raw : Raw) : Raw :=
   raw.map fun kv => (kv.1, ((expectedTuple (raw :: snapsOf n h) kv.1).getD kv.2))
 
+/-! ## System-wide form: field-wise sum over the devices -/
+
+/-- field `i` of the system-wide result = Σ over the listed devices of their field `i`;
+    as many fields as the first device has -/
+def totalOf (r : Raw) : List Nat :=
+  match r with
+  | [] => []
+  | kv :: _ => (List.range kv.2.length).map fun i => (r.map fun e => tupleAt e.2 i).sum
+
+/-- promised value of counter `i` of device `k` after the snapshots `snaps` (newest first) -/
+def valueAt (snaps : List Raw) (k : Key) (i : Nat) : Nat :=
+  ((expectedTuple snaps k).getD []).getD i 0
+
+/-- promised field `i` of the system-wide form when the newest snapshot is `r` -/
+def totalField (snaps : List Raw) (r : Raw) (i : Nat) : Nat :=
+  (r.map fun kv => valueAt (r :: snaps) kv.1 i).sum
+
 end Psutil.C10.Spec
